@@ -104,6 +104,16 @@ CLAIMED = {
              "known findings (re-queue reorders; skipped frames lost when a read times out), two fixed defects.",
         ref="§4 C06", technique="symbolic execution with symbolic time on a virtual event loop (CrossHair + z3)", engine="vloop",
     ),
+    "C08": dict(
+        text="Bounded symbolic execution (CrossHair + z3) of the real tcp-lines, unix-lines, DoIP and HSFZ transports on a virtual-time loop: the peer delivers a "
+             "symbolic prefix of its stream (every byte offset) at a symbolic instant and then closes, resets or goes silent at a symbolic instant, with a symbolic "
+             "caller timeout or none. On every schedule the exchange ends (loop idle implies task done) with the reply, a timeout, a connection error or "
+             "end-of-stream within caller timeout + acknowledgement time, returned data is exactly a complete frame the peer sent, close() twice afterwards "
+             "does not raise; with the real UDSClient(max_retry=1) on tcp-lines the reply is obtained over exactly one reconnect when the peer accepts again.",
+        note="Trusted: CrossHair, z3, engine/vloop.py, fake streams instead of sockets (kernel RST/FIN behaviour outside). Three recorded known findings "
+             "(EOF inside a line; blocked read never woken on loss for DoIP/HSFZ), two fixed defects (close() after reset).",
+        ref="§4 C08", technique="symbolic execution with symbolic time on a virtual event loop (CrossHair + z3)", engine="vloop",
+    ),
     "C02": dict(
         text="Bounded symbolic execution (CrossHair + z3) of the real UDSResponse.parse_dynamic / from_pdu / pdu code: for every first byte "
              "0x00-0xFF and every total length in the stated bound, with all remaining bytes symbolic, every path is explored and the "
